@@ -40,6 +40,9 @@ type ProcSpec struct {
 	Kind string `json:"kind"` // reader, script
 	Ops  []Op   `json:"ops"`
 	Big  string `json:"big"` // reader: read or skip BigMessages
+	// Delay (ms) before the first operation and Repeat (the operation list is run that many times): long histories in free mode
+	Delay  int `json:"delay,omitempty"`
+	Repeat int `json:"repeat,omitempty"`
 }
 
 // Step is one step of a behaviour.
@@ -87,10 +90,14 @@ type Behaviour struct {
 	Auto     bool     `json:"auto,omitempty"`
 	Mute     []string `json:"mute,omitempty"`
 	ListSeed int64    `json:"listseed,omitempty"`
-	Random   *Random  `json:"random,omitempty"`
-	Frame    *Frame   `json:"frame,omitempty"`
-	Epilogue string   `json:"epilogue"` // drain, close, none
-	Slow     int      `json:"slow"`     // multiplier for the time limits (confirmation runs)
+	// WaitFor: processes that run to their end in free mode before the epilogue starts (long histories)
+	WaitFor []string `json:"waitfor,omitempty"`
+	// StallAfter: the broker stops reading the first connection after that many client writes (free mode)
+	StallAfter int     `json:"stallafter,omitempty"`
+	Random     *Random `json:"random,omitempty"`
+	Frame      *Frame  `json:"frame,omitempty"`
+	Epilogue   string  `json:"epilogue"` // drain, close, none
+	Slow       int     `json:"slow"`     // multiplier for the time limits (confirmation runs)
 }
 
 // Random asks for a seeded random schedule instead of scripted steps (exploration).
@@ -117,6 +124,9 @@ type Random struct {
 	// Burst: the named process stays parked until step At, then runs alone until it blocks or ends
 	// (Close / Disconnect issued at a chosen gate of the others and completed without interference).
 	Burst *Burst `json:"burst,omitempty"`
+	// Plain: stay within the vocabulary of the specification (whole reads; write faults are a reset, an expiry without
+	// a byte, or an expiry after one byte) and record the client's projection after every step (code -> model validation)
+	Plain bool `json:"plain"`
 	// PQuit: probability per step that a quit channel of mode "later" gets closed while its call is in progress
 	PQuit float64 `json:"pquit"`
 	// Damage lists store damages applied between a stop and the following adopt.
@@ -403,12 +413,13 @@ func Run(b *Behaviour) (events []sim.Ev) {
 			return
 		}
 	}
+	x.W.StallAfter = b.StallAfter
 	x.startProcs(b.Procs)
 	if b.Auto {
 		x.W.AutoBroker = true
-		for _, t := range b.Mute {
-			x.W.Broker.Mute[t] = true
-		}
+	}
+	for _, t := range b.Mute {
+		x.W.Broker.Mute[t] = true
 	}
 	for i := range b.Steps {
 		if !x.step(i, &b.Steps[i]) {
@@ -417,6 +428,21 @@ func Run(b *Behaviour) (events []sim.Ev) {
 	}
 	if b.Random != nil {
 		x.randomRun(b.Random)
+	}
+	if len(b.WaitFor) > 0 {
+		x.W.S.Free()
+		deadline := time.Now().Add(60 * time.Second)
+		for time.Now().Before(deadline) {
+			all := true
+			for _, n := range b.WaitFor {
+				all = all && x.W.S.Done(n)
+			}
+			if all {
+				break
+			}
+			x.pollExchanges()
+			time.Sleep(2 * time.Millisecond)
+		}
 	}
 	for _, t := range b.Mute {
 		delete(x.W.Broker.Mute, t)
@@ -554,8 +580,15 @@ func (x *Exec) script(name string, c *mqtt.Client, gen int, spec ProcSpec) {
 			x.emit(sim.Ev{"e": "panic", "p": name, "msg": fmt.Sprint(r), "site": panicSite()})
 		}
 	}()
-	for i := range spec.Ops {
-		op := &spec.Ops[i]
+	if spec.Delay > 0 {
+		time.Sleep(time.Duration(spec.Delay) * time.Millisecond)
+	}
+	ops := spec.Ops
+	for r := 1; r < spec.Repeat; r++ {
+		ops = append(ops, spec.Ops...)
+	}
+	for i := range ops {
+		op := &ops[i]
 		x.W.S.Arrive("call", op.M, map[string]any{"tag": op.Tag})
 		x.emit(sim.Ev{"e": "call", "p": name, "m": op.M, "gen": gen, "tag": op.Tag, "quit": op.Quit, "filters": strs(op.Filters)})
 		var err error
@@ -1048,7 +1081,7 @@ func (x *Exec) epilogue() {
 			}
 		}
 	}()
-	if x.B.Random != nil && len(x.B.Random.Mute) > 0 {
+	if (x.B.Random != nil && len(x.B.Random.Mute) > 0) || len(x.B.Mute) > 0 {
 		// acknowledgements were withheld: the network heals with a connection loss, so that the client resends
 		for _, c := range x.W.Conns() {
 			if !c.IsClosed() {
@@ -1070,7 +1103,19 @@ func (x *Exec) epilogue() {
 	if !drained {
 		x.reportStuck("drain")
 	} else if !x.closedByScenario() {
-		x.snapshot() // quiescent: queue lengths must match what is pending
+		// quiescent: queue lengths must match what is pending.  The read routine may still be inside the handler of the
+		// last acknowledgement (record deleted, counter not yet advanced): wait until two looks agree and nothing happened.
+		for i := 0; i < 100; i++ {
+			n0 := x.W.Rec.Len()
+			a := x.Client.VerifSnapshot()
+			time.Sleep(2 * time.Millisecond)
+			b := x.Client.VerifSnapshot()
+			if x.W.Rec.Len() == n0 && a.Acked == b.Acked && a.Received == b.Received && a.Completed == b.Completed &&
+				a.QueueLen == b.QueueLen && a.AcceptN == b.AcceptN {
+				break
+			}
+		}
+		x.snapshot()
 	}
 	if x.B.Epilogue != "drain-noclose" {
 		closed := make(chan struct{})
@@ -1261,7 +1306,10 @@ func (x *Exec) randomRun(r *Random) {
 	gens := append([]map[string]ProcSpec(nil), r.Gens...)
 	for n := 0; n < r.Max; n++ {
 		if last != "" {
-			x.W.S.WaitParked(last, 30*time.Millisecond)
+			g, ended := x.W.S.WaitParked(last, 30*time.Millisecond)
+			if r.Plain && (g != nil || ended) {
+				x.snapshot() // every goroutine of the client is parked or blocked now
+			}
 		} else {
 			time.Sleep(200 * time.Microsecond)
 		}
@@ -1374,6 +1422,9 @@ func (x *Exec) randomRun(r *Random) {
 					if g.Info["armed"].(bool) && rng.Intn(2) == 0 {
 						o.Kind = "timeout"
 					}
+					if r.Plain && o.Kind == "timeout" && o.N > 1 {
+						o.N = 1
+					}
 				}
 			case "dial":
 				if rng.Float64() < r.PDial {
@@ -1398,7 +1449,7 @@ func (x *Exec) randomRun(r *Random) {
 			c := x.W.Conn(g.Info["c"].(int))
 			if c != nil && c.Pending() == 0 {
 				o.Kind = c.Readable()
-			} else if rng.Intn(3) == 0 && c != nil {
+			} else if !r.Plain && rng.Intn(3) == 0 && c != nil {
 				o = sched.Outcome{Kind: "n", N: 1 + rng.Intn(c.Pending())}
 			}
 		}
